@@ -727,6 +727,54 @@ handler("C08")(_regs)
 handler("C05")(_cpu_branch)
 
 
+def _generic(body):
+    """Replay for contracts without a hand-written replayer: the unit's own contract function is run
+    again with every named input fixed to the counter-model's value, so the real functions execute
+    on plain Python ints/bools; first without any instrumentation of the repository modules (no
+    shims, no source passes on the third-party evaluator), and only if a container proxy reaches an
+    uninstrumented operation a second time with the shims.  Array contents (memory images, VRAM)
+    stay universally quantified.  A run in which nothing fails is reported as 'no failing input'."""
+    import importlib
+    import tempfile
+    fn_path, model, unit = body.get("fn_path"), body.get("model"), body.get("unit")
+    if not fn_path or model is None:
+        return 4, "no contract function / model recorded"
+    scal = {k: v for k, v in model.items() if not k.startswith("@") and isinstance(v, (int, bool))}
+    f = tempfile.NamedTemporaryFile("w", suffix=".json", delete=False)
+    json.dump(scal, f)
+    f.close()
+    os.environ["SYMX_FIX_INPUTS"] = f.name
+    modname, fname = fn_path.split(":")
+    want = (body.get("obligation") or "").split("@")[0]
+    notes = []
+    try:
+        for noshims in ("1", "0"):
+            os.environ["SYMX_NO_SHIMS"] = noshims
+            for name in list(sys.modules):
+                if name.split(".")[0] in ("sc62015", "pce500", "binja_test_mocks", "binaryninja", "contracts", "symx", "spec"):
+                    del sys.modules[name]
+            try:
+                fn = getattr(importlib.import_module(modname), fname)
+                rep = fn(dict(unit, known=[]))
+            except BaseException as e:  # noqa: BLE001
+                notes.append(f"{'plain' if noshims == '1' else 'shimmed'} run: {type(e).__name__}: {str(e)[:120]}")
+                continue
+            if rep.get("status") not in ("ok",) and not rep.get("failed"):
+                notes.append(f"{'plain' if noshims == '1' else 'shimmed'} run: {rep.get('status')}: {str(rep.get('error'))[:160]}")
+                continue
+            mode = "plain CPython, no instrumentation" if noshims == "1" else "under the engine's shims"
+            bad = [o for o in rep.get("failed", []) if o["name"].split("@")[0] == want] or rep.get("failed", [])
+            if bad:
+                return 1, f"inputs {scal}: {bad[0]['name']} fails when the real functions run on them ({mode}): {str(bad[0].get('detail'))[:300]}"
+            notes.append(f"{mode}: all {rep.get('obligations')} obligations hold for these inputs")
+            break
+    finally:
+        os.unlink(f.name)
+        os.environ.pop("SYMX_FIX_INPUTS", None)
+        os.environ.pop("SYMX_NO_SHIMS", None)
+    return 4, "no failing input found by fixing the counter-model's inputs: " + "; ".join(notes)
+
+
 def main():
     prop, path = sys.argv[1], sys.argv[2]
     body = json.load(open(path))
@@ -738,11 +786,14 @@ def main():
         fn = getattr(importlib.import_module(modname), fname)
     else:
         fn = HANDLERS.get(prop)
-    if fn is None:
-        print("no native replayer for", prop)
-        return 4
     try:
-        code, text = fn(body)
+        code, text = fn(body) if fn is not None else (4, f"no hand-written replayer for {prop}")
+        if code == 4:
+            code2, text2 = _generic(body)
+            if code2 == 1:
+                code, text = code2, text2
+            else:
+                text = text + " | " + text2
     except Exception as e:  # noqa: BLE001
         import traceback
         traceback.print_exc()
